@@ -303,10 +303,35 @@ def getStr (r : Record) (k : String) : Option String :=
   | some (_, .str s) => some s
   | _ => none
 
+/-- digits with single underscores allowed between them -/
+def digitsLax : List Char → Option Nat
+  | [] => none
+  | cs =>
+    if cs.head? == some '_' || cs.getLast? == some '_' then none
+    else if (cs.zip cs.tail).any (fun (a, b) => a == '_' && b == '_') then none
+    else
+      let ds := cs.filter (· != '_')
+      if ds.all Char.isDigit && !ds.isEmpty then some (ds.foldl (fun n c => n * 10 + (c.toNat - 48)) 0) else none
+
+/-- pydantic's lax `str -> int`: surrounding white space, a sign, underscores between digits, and a fraction
+of zeros only are accepted -/
+def parseIntLax (s : String) : Option Int :=
+  let cs := s.trimAscii.toString.toList
+  let (neg, cs) := match cs with
+    | '-' :: r => (true, r)
+    | '+' :: r => (false, r)
+    | r => (false, r)
+  let (ip, fp) := (cs.takeWhile (· != '.'), (cs.dropWhile (· != '.')))
+  let fracOk := match fp with
+    | [] => true
+    | _ :: zs => !zs.isEmpty && zs.all (· == '0')
+  if !fracOk then none else
+  (digitsLax ip).map fun n => if neg then -(n : Int) else (n : Int)
+
 def getInt (r : Record) (k : String) : Option Int :=
   match r.find? (·.1 == k) with
   | some (_, .num n) => some n
-  | some (_, .str s) => s.toInt?
+  | some (_, .str s) => parseIntLax s
   | _ => none
 
 /-- `Optional[str]`: present-and-string, or null; anything else is a validation error -/
